@@ -647,10 +647,10 @@ class Provenance(MutableSequence[Expression]):
         values = np.append(values, -1)
 
         result = np.equal(values[self._data[:, :, :, 0]], self._data[:, :, :, 1])
-        result = result.squeeze(axis=2) if result.shape[2] == 1 else np.all(result, axis=2)
-        result = result.squeeze(axis=1) if result.shape[1] == 1 else np.any(result, axis=1)  # TODO: This is incorrect.
-        # Specifically, when some elements of data are -1 then some equalities would be (-1 == -1) which are true
-        # and this is fine for all() because True is a netural element. But in any() this situation causes problems.
+        # Padding elements are -1 and compare as (-1 == -1), which is true. This is fine for all() because True is
+        # its neutral element, but a conjunction made up entirely of padding must not satisfy any().
+        result = np.all(result, axis=2) & np.any(self._data[:, :, :, 0] != -1, axis=2)
+        result = np.any(result, axis=1)
         if dtype == int:
             result = np.argwhere(result)
         return result
